@@ -10,6 +10,7 @@ CONSTANTS
   MaxEvents = 0
   Dev <- TKnown
   Pairs2 = TRUE
+  NoDef <- TNoDef
 CONSTRAINT Progress
 POSTCONDITION Post
 CHECK_DEADLOCK FALSE
